@@ -140,7 +140,10 @@ def check_C15(tier_, sd, consts_ok, consts_detail):
     e2e_projs = []
     sample = [lines[rng.below(len(lines))] for _ in range(150 if tier_ == "quick" else 600)]
     for j, l in enumerate(sample):
-        p = Project("e%d" % j); p.files = [("/s.txt.txtpp", ("top\n" + l + "\nzz-end\n").encode())]; p.inputs = ["s.txt"]
+        # line endings may be mixed inside one file (the first line decides the OUTPUT ending only): recognition must not depend on
+        # whether the line itself ends in LF or CRLF
+        text = ["top\n" + l + "\nzz-end\n", "top\n" + l + "\r\nzz-end\r\n", "top\r\n" + l + "\nzz-end\n"][j % 3]
+        p = Project("e%d" % j); p.files = [("/s.txt.txtpp", text.encode())]; p.inputs = ["s.txt"]
         p.pp = ("/s.txt.txtpp", False)
         e2e_projs.append(p)
     complete_oracles(e2e_projs)      # a sampled line may be a `run` directive: its command is evaluated once with sh
@@ -158,6 +161,9 @@ def check_C15(tier_, sd, consts_ok, consts_detail):
         for form in ("=", " "):
             p = Project("cd%d%s" % (j, "p" if form == "=" else "s"))
             main = "top\n-TXTPP#include dep.txt\n=TXTPP#%s\n%s%s\n%sz\n\nend\n" % (ty, form, look, form)
+            if j % 2:
+                # LF first line, CRLF afterwards: a bare prefix or an argument-less directive followed by CR LF is still what it is
+                first, rest = main.split("\n", 1); main = first + "\n" + rest.replace("\n", "\r\n")
             p.files = [("/main.txt.txtpp", main.encode()), ("/dep.txt.txtpp", b"dep\n"), ("/other.txt.txtpp", b"other must not be built\n")]
             p.inputs = ["main.txt"]; p.sched = [0] * 8
             cprojs.append(p)
@@ -527,6 +533,37 @@ def check_C02(tier_, sd, consts_ok, consts_detail):
                 violations.append(proj_violation("C02", "coordinator trace / verdict / bytes differ from Run.txtpp_run on the same schedule (correspondence Coord.handle vs run_internal)",
                                                  q, oi, om, found=fail_input))
         xcheck(cov, violations, "C02", [q for (_, q, _) in runs[::97]], mouts[::97], limit=2)
+    # freshness does not depend on the mode or on what lies at the outputs: --needed runs of every acyclic 3-file class on trees where
+    # each output holds an OLDER, LONGER version (the fresh text plus a tail), a SHORTER one (a prefix) or nothing; includers must see the
+    # fresh bytes of their dependencies, commands placed after the directive too
+    nd = []
+    for (e_, i_) in canon_graphs(3):
+        if any(can_reach_cycle(v, e_) for v in range(3)): continue
+        exp = seq_build(NAMES3, e_)
+        for var in range(3):
+            q = digraph_project("nd%d_%d" % (len(nd), var), NAMES3, e_, i_, stale=False, mode=1)
+            plant = []
+            for j in range(3):
+                t = exp[j]
+                old_ = [t + b"line of an older, longer version\n", t[: max(1, len(t) // 2)], None][(j + var) % 3]
+                if old_ is not None: plant.append((gen.out_name(NAMES3[j]), old_))
+            q.files = q.files + plant; q.sched = [(len(nd) * 5 + t) % 4 for t in range(12)]
+            nd.append(q)
+    complete_oracles(nd)
+    ni_, nm_ = both(nd)
+    for q, a, b in zip(nd, ni_, nm_):
+        exp = seq_build(q.names, q.edges); req = reachable_from(q.input_idx, q.edges); bad = None
+        if a["verdict"] == "ok":
+            for i in req:
+                if a["F"].get(gen.out_name(q.names[i])) != exp[i]: bad = ("output of %s" % q.names[i], a["F"].get(gen.out_name(q.names[i])), exp[i]); break
+            for name, snap in a["M"].items():
+                if bad is None and name.startswith("snap_") and snap != exp[int(name.split("_")[2])]: bad = ("what a command after the directive saw of %s" % q.names[int(name.split("_")[2])], snap, exp[int(name.split("_")[2])])
+        if (a["verdict"] != "ok" or bad) and len(violations) < 5:
+            violations.append(proj_violation("C02", "--needed on a tree with older outputs: verdict %s; %s is not the fresh text" % (a["verdict"], bad[0] if bad else "-"), q, a, b,
+                                             extra={"got": short(bad[1]) if bad else None, "expected": short(bad[2]) if bad else None}))
+        elif (a["verdict"], a["T"], a["F"]) != (b["verdict"], b["T"], b["F"]) and len(violations) < 5:
+            violations.append(proj_violation("C02", "--needed run on a tree with older outputs differs from the model", q, a, b, found=False))
+    cov["evaluations"] += len(nd); cov["needed_runs_on_older_outputs"] = len(nd)
     return {"coverage": cov, "violations": violations}
 
 def check_C03(tier_, sd, consts_ok, consts_detail):
@@ -575,7 +612,26 @@ def check_C03(tier_, sd, consts_ok, consts_detail):
                 violations.append(proj_violation("C03", "aliased/duplicate inputs: verdict %s, commands run more than once: %s" % (oi["verdict"], bad), q, oi, om))
         elif (oi["verdict"], oi["F"], oi["T"]) != (om["verdict"], om["F"], om["T"]) and len(violations) < 5:
             violations.append(proj_violation("C03", "aliased inputs: trace/bytes differ from the model", q, oi, om, found=False))
-    cov["evaluations"] += len(dprojs); cov["aliased_input_cases"] = len(dprojs)
+    # termination and exactly-once do not depend on what the lines look like: multi-line directives with NON-ASCII prefixes whose
+    # next line is indented by the prefix's character count / byte count in spaces, is blank, or starts with a multi-byte character
+    odd = []
+    for k_, (pre, cont) in enumerate([("» ", "  «end»"), ("» ", "   «end»"), ("» ", "  "), ("é", " ü"), ("é", "  ü"), ("日本 ", "   x"), ("日本 ", "       x"), ("// ", "   x")]):
+        for md in (0, 3) if k_ < 3 else (0,):
+            q = Project("odd%d_%d" % (k_, md))
+            part = "%sTXTPP#run printf x >> @M@/cnt_part; printf 'ok\\n'\n%s\nafter\n" % (pre, cont)
+            main = "top\n-TXTPP#include part.md\n=TXTPP#run printf x >> @M@/cnt_main; printf 'm\\n'\nend\n"
+            q.files = [("/part.md.txtpp", part.encode()), ("/main.md.txtpp", main.encode())]
+            q.inputs = ["main.md.txtpp", ".", "main.md"]; q.mode = md; q.sched = [(k_ + t) % 3 for t in range(10)]; q.threads = 2
+            odd.append(q)
+    complete_oracles(odd)
+    oi_, om_ = both(odd)
+    for q, a, b in zip(odd, oi_, om_):
+        bad = [n_ for n_, v_ in a["M"].items() if n_.startswith("cnt_") and len(v_) != 1]
+        if a["verdict"] in ("hang", "panic") or (q.mode == 0 and a["verdict"] == "ok" and bad):
+            if len(violations) < 5: violations.append(proj_violation("C03", "non-ASCII directive prefix: the run ended with `%s`, commands not run exactly once: %s" % (a["verdict"], bad), q, a, b))
+        elif (a["verdict"], a["F"] if a["verdict"] == "ok" else None) != (b["verdict"], b["F"] if b["verdict"] == "ok" else None) and len(violations) < 5:
+            violations.append(proj_violation("C03", "non-ASCII directive prefix: verdict/bytes differ from the model", q, a, b, found=False))
+    cov["evaluations"] += len(dprojs) + len(odd); cov["aliased_input_cases"] = len(dprojs); cov["non_ascii_prefix_cases"] = len(odd)
     xcheck(cov, violations, "C03", dprojs, dm)
     return {"coverage": cov, "violations": violations}
 
@@ -603,6 +659,28 @@ def check_C05(tier_, sd, consts_ok, consts_detail):
         if (oi["verdict"], oi["T"], oi["F"]) != (om["verdict"], om["T"], om["F"]) and len(violations) < 5:
             violations.append(proj_violation("C05", "trace / verdict / bytes differ from Run.txtpp_run on the same schedule", q, oi, om, found=False))
     cov["runs_with_reachable_cycle"] = ncyc
+    # cycles are reported in EVERY mode that orders files (verify and --needed too), also when every output already holds exactly
+    # what a file-by-file expansion gives: `after` edges (no text is included), each output planted with the file's own text
+    vm = []
+    for (e_, i_) in canon_graphs(3):
+        for md in (3, 1):
+            q = digraph_project("vm%d_%d" % (len(vm), md), NAMES3, e_, i_, stale=False, after=True, mode=md)
+            own = seq_build(NAMES3, [], after=True)
+            q.files = q.files + [(gen.out_name(NAMES3[j]), own[j]) for j in range(3)]
+            q.sched = [(len(vm) * 7 + t) % 5 for t in range(12)]
+            vm.append(q)
+    complete_oracles(vm)
+    vi, vmo = both(vm)
+    nvm = 0
+    for q, a, b in zip(vm, vi, vmo):
+        req = reachable_from(q.input_idx, q.edges); cyc = any(can_reach_cycle(v, q.edges) for v in req); nvm += cyc
+        if cyc and a["verdict"] == "ok" and len(violations) < 5:
+            violations.append(proj_violation("C05", "mode %s: a required file can reach a dependency cycle but the run reported success" % ("verify" if q.mode == 3 else "--needed"), q, a, b))
+        elif not cyc and a["verdict"] != "ok" and b["verdict"] == "ok" and len(violations) < 5:
+            violations.append(proj_violation("C05", "mode %s: project without cycles failed" % ("verify" if q.mode == 3 else "--needed"), q, a, b))
+        elif (a["verdict"], a["F"]) != (b["verdict"], b["F"]) and len(violations) < 5:
+            violations.append(proj_violation("C05", "verify/--needed run on a planted tree differs from the model", q, a, b, found=False))
+    cov["verify_and_needed_mode_runs"] = len(vm); cov["verify_and_needed_mode_runs_with_cycle"] = nvm
     xcheck(cov, violations, "C05", [q for (_, q, _) in runs[::131]], mouts[::131], limit=2)
     return {"coverage": cov, "violations": violations}
 
@@ -640,6 +718,28 @@ def check_C01(tier_, sd, consts_ok, consts_detail):
         same = a["verdict"] == b["verdict"] and (a["verdict"] != "ok" or a["F"] == b["F"])
         if not same and len(violations) < 5:
             violations.append(proj_violation("C01", "verdict or generated bytes differ from the README semantics (Spec.spec_file = Pp.pp_run, theorem machine_refines_spec)", p, a, b))
+    # directives take effect in source order: a file that is included, rewritten by a later temp directive and included AGAIN (under the
+    # same or another spelling of its path), with a generated dependency in front or not; every include sees the bytes of that moment
+    order = []
+    for k_ in range(40 if tier_ == "quick" else 600):
+        r = rng.fork("ord%d" % k_); q = Project("ord%d" % k_)
+        d = r.choice(["/", "/sub/"]); q.dirs = ["/sub", "/sub/x"]
+        sp = lambda: r.choice(["t.tmp", "./t.tmp", "x/../t.tmp" if d == "/sub/" else "sub/../t.tmp"])
+        v1 = r.choice(["first version", "one\n-two"]); v2 = r.choice(["second version", "2a\n=2b\n=2c", ""])
+        L = (["/TXTPP#include dep.txt"] if k_ % 3 == 0 else []) + ["top", "-TXTPP#temp t.tmp", "-" + v1, "", "  +TXTPP#include " + sp(), "mid", "=TXTPP#temp " + sp(), "=" + v2, "",
+             "~TXTPP#include " + sp(), "-TXTPP#tag HERE", "=TXTPP#include " + sp(), "x HERE y", "end"]
+        q.files = [(d + "s.txt.txtpp", ("\n".join(L) + "\n").encode())] + ([(d + "dep.txt.txtpp", b"generated dependency\n")] if k_ % 3 == 0 else [])
+        q.inputs = [(d + "s.txt").lstrip("/")]; q.sched = [r.below(3) for _ in range(8)]
+        q.v2 = v2.replace("=", ""); order.append(q)
+    ri, rm = both(order, oracle=False)
+    for q, a, b in zip(order, ri, rm):
+        out = [v_ for k_, v_ in a["F"].items() if k_.endswith("s.txt")]
+        second = q.v2.split("\n")[0].encode()
+        if a["verdict"] == "ok" and b["verdict"] == "ok" and (not out or out[0] != [v_ for k_, v_ in b["F"].items() if k_.endswith("s.txt")][0]) and len(violations) < 5:
+            violations.append(proj_violation("C01", "a file included again after a later directive rewrote it: the output does not show the bytes of that moment (README: directives are executed in order)", q, a, b,
+                                             extra={"second_version_expected_after_mid": short(second)}))
+        elif (a["verdict"], a["F"] if a["verdict"] == "ok" else None) != (b["verdict"], b["F"] if b["verdict"] == "ok" else None) and len(violations) < 5:
+            violations.append(proj_violation("C01", "verdict or generated bytes differ from the README semantics (re-included file)", q, a, b))
     # the repository's own golden fixtures as a sanity check of the specification
     fx = fixture_projects()
     fi, fm = both(fx)
@@ -654,7 +754,7 @@ def check_C01(tier_, sd, consts_ok, consts_detail):
             if a["F"].get(path) != exp and len(violations) < 5:
                 violations.append(proj_violation("C01", "the implementation disagrees with the repository's golden file for %s" % path, p, a, b,
                                                  extra={"golden": short(exp), "got": short(a["F"].get(path))}))
-    cov = {"evaluations": n + len(fx), "distinct_nontrivial": len(nontriv),
+    cov = {"evaluations": n + len(fx) + len(order), "distinct_nontrivial": len(nontriv), "reinclude_after_rewrite_cases": len(order),
            "rule": "grammar-directed random projects inside the documented domain (1-5 sources over <= 3 directories, include/after edges, plain includes, temp targets, pure commands, tags, "
                    "LF/CRLF/mixed endings, erroneous directives at low rate), Build mode, random controlled schedule; distinct_nontrivial = distinct sets of generated files (path, bytes)",
            "verdicts(impl,model)": {"%s/%s" % k: v for k, v in verd.items()}, "input_distribution": dist_of(projs),
@@ -953,6 +1053,10 @@ def check_C16(tier_, sd, consts_ok, consts_detail):
     for k, t in enumerate(texts):
         t = [l for l in t if cls[l] == "D -"]
         r = rng.fork("u%d" % k)
+        if k % 80 == 7 and t:
+            # a very long FIRST line (around and beyond the 8 KiB read buffer): pass-through and the detected ending must not depend on it
+            t = [(t[0] + " ") * (1 + [8100, 8192, 9000, 16400, 20000][(k // 80) % 5] // (len(t[0]) + 1))] + t[1:]
+            if run_model(["D " + hx(t[0])])[0] != "D -": t = ["x" * 9000] + t[1:]
         le = r.choice(["\n", "\r\n"]); final = r.chance(2, 3)
         src = le.join(t) + (le if (final and t) else "")
         p = Project("id%d" % k); p.files = [("/s.txt.txtpp", src.encode())]; p.inputs = ["s.txt"]; p.trailing = r.chance(2, 3); p.sched = [0] * 4
@@ -1144,8 +1248,14 @@ def check_C06(tier_, sd, consts_ok, consts_detail):
         for v in range(6 if tier_ == "quick" else 10):
             q = follow(p, a, "%s.v%d" % (p.id, v)); q.mode = 3
             fm = dict(q.files); what = "none"; expect_fail = False
-            sel = r.below(5)
+            sel = r.below(6)
+            temps_ = [k_ for k_, v_ in a["F"].items() if v_ is not None and k_ not in dict(p.files) and k_ not in outs]
             if v == 0: pass
+            elif sel == 5 and temps_:
+                # a temp file was altered by hand (or is left over from an older source): the outputs are still exactly what a build
+                # writes now, so verify passes - it rewrites the temp file on the way, which C06 allows (only outputs are read-only)
+                t = r.choice(temps_); fm[t] = r.choice([b"stale temp\n", b"", fm[t] + b"more"]); what = "stale-temp " + t; expect_fail = False
+            elif sel == 5: pass
             elif sel == 0:   # delete an output
                 t = r.choice(outs); fm.pop(t, None); what = "delete " + t; expect_fail = True
             elif sel in (1, 2, 3):
@@ -1163,8 +1273,41 @@ def check_C06(tier_, sd, consts_ok, consts_detail):
             # slower than the coordinator's poll): the verdict of a task still in flight must not be lost
             q.idle = v in (1, 2)
             steps.append(q); meta.append((k, what, expect_fail))
+    # sources whose OUTPUT depends on a temp file they write themselves (temp, then include of it), alone or behind a dependency:
+    # after a build, (a) the temp file is altered by hand - verify still passes, the outputs are what a build writes now;
+    # (b) only the temp BODY in the source is edited - the output is stale, verify must fail although the old temp file still matches it
+    tq = []
+    for k_ in range(30 if tier_ == "quick" else 400):
+        r = rng.fork("tv%d" % k_); q0 = Project("tv%d" % k_)
+        body = ["é item %d" % k_, "second"][: 1 + r.below(2)]
+        def src_of(bd): return ("\n".join((["/TXTPP#include dep.txt"] if k_ % 2 else []) + ["list:", "-TXTPP#temp items%d.tmp" % k_] + ["-" + x for x in bd] + ["", "  =TXTPP#include items%d.tmp" % k_, "end"]) + "\n").encode()
+        q0.files = [("/list.txt.txtpp", src_of(body))] + ([("/dep.txt.txtpp", b"dependency\n")] if k_ % 2 else [])
+        q0.srcs = [f_ for f_, _ in q0.files]; q0.inputs = ["."]; q0.recursive = True; q0.sched = [r.below(3) for _ in range(8)]
+        tq.append((q0, src_of(body[:-1] + ["EDITED " + body[-1]])))
+    t0i, t0m = both([q0 for q0, _ in tq], oracle=False)
+    tsteps = []; tmeta = []
+    for (q0, edited), a0 in zip(tq, t0i):
+        if a0["verdict"] != "ok": continue
+        tmp = [k_ for k_ in a0["F"] if k_.endswith(".tmp")][0]
+        for what in ("temp-altered", "temp-deleted", "temp-body-edited"):
+            q = follow(q0, a0, q0.id + "." + what); q.mode = 3; fm = dict(q.files)
+            if what == "temp-altered": fm[tmp] = b"altered by hand\n"
+            elif what == "temp-deleted": fm.pop(tmp)
+            else: fm["/list.txt.txtpp"] = edited
+            q.files = sorted(fm.items()); q.sched = q0.sched; tsteps.append(q); tmeta.append(what)
+    ti_, tm_ = both(tsteps, oracle=False)
     oi, om = both(steps)
     violations = []; verd = collections.Counter(); nontriv = set()
+    for q, a, b, what in zip(tsteps, ti_, tm_, tmeta):
+        verd[(what, a["verdict"])] += 1
+        if what != "temp-body-edited" and a["verdict"] != "ok" and len(violations) < 5:
+            violations.append(proj_violation("C06", "verify failed although every output is exactly what a build writes now (%s)" % what, q, a, b))
+        elif what == "temp-body-edited" and a["verdict"] == "ok" and len(violations) < 5:
+            violations.append(proj_violation("C06", "verify succeeded although the source's temp body was edited and the output (which includes the temp file) is stale", q, a, b))
+        elif a["verdict"] != b["verdict"] and len(violations) < 5:
+            violations.append(proj_violation("C06", "verify verdict differs from the model (%s)" % what, q, a, b, found=False))
+        if any(a["F"].get(o_) != dict(q.files).get(o_) for o_ in ("/list.txt", "/dep.txt") if o_ in dict(q.files)) and len(violations) < 5:
+            violations.append(proj_violation("C06", "verify changed an output (%s)" % what, q, a, b))
     for q, a, b, (k, what, expect_fail) in zip(steps, oi, om, meta):
         verd[(what.split(" ")[0], a["verdict"])] += 1
         before = dict(q.files)
@@ -1177,10 +1320,12 @@ def check_C06(tier_, sd, consts_ok, consts_detail):
             violations.append(proj_violation("C06", "verify succeeded although an output was tampered with (%s)" % what, q, a, b))
         if expect_fail is False and what == "none" and a["verdict"] != "ok" and len(violations) < 5:
             violations.append(proj_violation("C06", "verify failed on an up-to-date tree", q, a, b))
+        if expect_fail is False and what.startswith("stale-temp") and a["verdict"] != "ok" and b["verdict"] == "ok" and len(violations) < 5:
+            violations.append(proj_violation("C06", "verify failed although every output is up to date (only a temp file was stale: %s)" % what, q, a, b))
         if a["verdict"] != b["verdict"] and len(violations) < 5:
             violations.append(proj_violation("C06", "verify verdict differs from the model (%s)" % what, q, a, b, found=(expect_fail is not None)))
         if what != "none": nontriv.add((k, what))
-    cov = {"evaluations": len(steps) + ngen, "distinct_nontrivial": len(nontriv),
+    cov = {"evaluations": len(steps) + ngen + len(tq) + len(tsteps), "distinct_nontrivial": len(nontriv), "temp_dependent_output_cases": len(tsteps),
            "rule": "generated projects are built, then verified after: nothing / deleting an output / one-byte flip, insertion, deletion, truncation, extension, emptying of an output (requested file or dependency) / flipping the trailing-newline option; "
                    "observed: verdict, and bytes + mtime + inode of every output before vs after; distinct_nontrivial = distinct (project, tampering)",
            "built_projects": len(built), "runs_with_idle_polls": sum(1 for q in steps if getattr(q, "idle", False)), "verdicts_by_tampering": {"%s/%s" % k: v for k, v in verd.items()},
@@ -1220,6 +1365,16 @@ def check_C07(tier_, sd, consts_ok, consts_detail):
     cl = []
     for p, a in zip(projs, bi):
         q = follow(p, a, p.id + ".clean"); q.mode = 2; q.cmds = p.cmds; cl.append(q)
+    # the outputs are deleted by hand after the build (or were never there): clean must still visit the temp directives
+    nodel = []
+    for p, a in list(zip(projs, bi))[: 200 if tier_ == "quick" else 5000]:
+        if a["verdict"] != "ok": continue
+        outs_ = {gen.out_name(s_) for s_ in p.srcs}
+        if not any(k_ not in outs_ and k_ not in dict(p.files) and v_ is not None for k_, v_ in a["F"].items()): continue      # no temp file generated
+        q = follow(p, a, p.id + ".noout"); q.mode = 2; q.cmds = p.cmds
+        q.files = [(f_, c_) for f_, c_ in q.files if f_ not in outs_]
+        nodel.append((p, q))
+    ni_, nm_ = both([q for _, q in nodel], oracle=False)
     # clean in the presence of directives that cannot be honoured (a temp target that is a directory, a target below a missing
     # directory, a .txtpp target, a temp directive without arguments): it must still succeed and still remove what the LATER
     # temp directives and the output name (files lying there are planted)
@@ -1261,6 +1416,15 @@ def check_C07(tier_, sd, consts_ok, consts_detail):
             nontriv.add(tuple(sorted(set(k for k, v in a["F"].items() if v is not None) - set(init))))
         if (c["verdict"], c["F"], c["U"]) != (m["verdict"], m["F"], m["U"]) and len(violations) < 5:
             violations.append(proj_violation("C07", "clean differs from the model (tree or touched set)", q, c, m, found=False))
+    nodel_ok = 0
+    for (p, q), c, m in zip(nodel, ni_, nm_):
+        init = dict(p.files); after = {k_: v_ for k_, v_ in c["F"].items() if v_ is not None}
+        left = sorted(set(after) - set(init))
+        if (c["verdict"] != "ok" or left) and len(violations) < 5:
+            violations.append(proj_violation("C07", "clean after the outputs were deleted by hand: verdict %s, generated files left behind %s" % (c["verdict"], left), q, c, m))
+        elif (c["verdict"], c["F"], c["U"]) != (m["verdict"], m["F"], m["U"]) and len(violations) < 5:
+            violations.append(proj_violation("C07", "clean differs from the model (tree or touched set)", q, c, m, found=False))
+        else: nodel_ok += 1
     hard_ok = 0
     for p, c, m in zip(hard, hi, hm):
         after = {k: v for k, v in c["F"].items() if v is not None}
@@ -1270,7 +1434,7 @@ def check_C07(tier_, sd, consts_ok, consts_detail):
         elif (c["verdict"], c["F"], c["U"]) != (m["verdict"], m["F"], m["U"]) and len(violations) < 5:
             violations.append(proj_violation("C07", "clean differs from the model (tree or touched set)", p, c, m, found=False))
         else: hard_ok += 1
-    cov = {"evaluations": 2 * len(projs) + len(hard), "distinct_nontrivial": len(nontriv), "clean_with_unhonourable_temp_directives_ok": hard_ok,
+    cov = {"evaluations": 2 * len(projs) + len(hard) + len(nodel), "distinct_nontrivial": len(nontriv), "clean_with_unhonourable_temp_directives_ok": hard_ok, "clean_after_outputs_deleted_ok": nodel_ok,
            "rule": "generated projects (erroneous directives included, counting commands with marker files; plus projects whose temp targets lie in sub-directories, parent directories and outside the base directory) are built, then cleaned with the same inputs (whole tree, recursive); "
                    "checked on the implementation: clean succeeds, writes no marker (runs nothing), deletes no .txtpp, leaves every non-generated file byte-identical, and after a successful build restores the tree exactly; "
                    "distinct_nontrivial = distinct sets of generated paths that clean had to remove",
@@ -1349,7 +1513,21 @@ def check_C08(tier_, sd, consts_ok, consts_detail):
     failing = gen_batch(rng.fork("f"), 80 if tier_ == "quick" else 600, modes=(0,), allow_errors=True)
     for p in failing: p.inputs = ["."]; p.recursive = True
     fi, fm_ = both(failing)
-    base = built + [(p, a) for p, a in zip(failing, fi) if a["verdict"] == "err"]
+    # sources that read a generated plain file AFTER their first dependency directive (their own temp target, written further up or
+    # further down, or a temp target of the dependency): whatever lies at those paths before the run must not matter
+    late = []
+    for k_ in range(24 if tier_ == "quick" else 300):
+        r = rng.fork("late%d" % k_); q = Project("late%d" % k_)
+        own_first = r.chance(1, 2)
+        La = ["a top"] + (["-TXTPP#temp part%d.g" % k_, "-é own part", ""] if own_first else []) + ["/TXTPP#include b.txt"] + \
+             ([] if own_first else ["-TXTPP#temp part%d.g" % k_, "-é own part", "-second line", ""]) + ["=TXTPP#include part%d.g" % k_] + (["+TXTPP#include bpart%d.g" % k_] if r.chance(1, 2) else []) + ["a end"]
+        Lb = ["b top", "-TXTPP#temp bpart%d.g" % k_, "-from b é", "", "b end"]
+        q.files = [("/a.txt.txtpp", ("\n".join(La) + "\n").encode()), ("/b.txt.txtpp", ("\n".join(Lb) + "\n").encode())]
+        q.srcs = ["/a.txt.txtpp", "/b.txt.txtpp"]; q.deps = {"/a.txt.txtpp": ["/b.txt.txtpp"], "/b.txt.txtpp": []}
+        q.inputs = ["."]; q.recursive = True; q.sched = [r.below(4) for _ in range(10)]; q.stats = collections.Counter({"late-read:project": 1})
+        late.append(q)
+    li, lm = both(late, oracle=False)
+    base = built + [(p, a) for p, a in zip(failing, fi) if a["verdict"] == "err"] + [(p, a) for p, a, b in zip(late, li, lm) if a["verdict"] == "ok" and a["F"] == b["F"]]
     steps = []; meta = []
     for k, (p, a) in enumerate(base):
         r = rng.fork("s%d" % k)
@@ -1377,13 +1555,13 @@ def check_C08(tier_, sd, consts_ok, consts_detail):
     for b in kbad[:3]:
         violations.append({"found": True, "replay": {"property": "C08", "what": "a build interrupted by SIGKILL was not repaired by building again", "detail": b,
                            "how": "tools/checks.py crash_histories: txtpp -q -r . killed after 0-60 ms, then txtpp -q -r . (or -N); tree compared with an uninterrupted build"}})
-    cov = {"evaluations": len(steps) + ngen + len(failing) + killed + early, "distinct_nontrivial": len(nontriv),
+    cov = {"evaluations": len(steps) + ngen + len(failing) + len(late) + killed + early, "distinct_nontrivial": len(nontriv),
            "sigkill_histories": {"killed_mid_build": killed, "finished_before_the_kill": early, "not_repaired": len(kbad)},
            "rule": "for generated projects (successful and failing) the build / needed-build is repeated from pre-states with, at every generated path independently: absent, exact content, a proper prefix cut at a random byte, extended content, "
                    "empty, stale text, non-UTF-8 bytes, half a multi-byte character, 300 bytes; and from the built tree itself; verdict and (on success) the whole tree must equal the build from the clean tree; "
                    "plus SIGKILL histories on the real binary (killed 0-60 ms into a build with 1-4 threads, then build or needed-build again, tree compared with an uninterrupted build); "
                    "distinct_nontrivial = distinct (project, pre-state shape)",
-           "projects": len(base), "prestate_kinds": dict(kinds), "samples": [steps[0].what, steps[1].what]}
+           "projects": len(base), "late_read_projects": len(late), "prestate_kinds": dict(kinds), "samples": [steps[0].what, steps[1].what]}
     xcheck(cov, violations, "C08", steps, om)
     return {"coverage": cov, "violations": violations}
 
@@ -1430,6 +1608,23 @@ def check_C09(tier_, sd, consts_ok, consts_detail):
                     violations.append(proj_violation("C09", "stale %s was not brought up to date" % g, q, a, b))
         if (a["verdict"], a["U"]) != (b["verdict"], b["U"]) and a["verdict"] == "ok" and len(violations) < 5:
             violations.append(proj_violation("C09", "set of rewritten files differs from the model", q, a, b, found=False))
+    # --needed succeeds exactly when a normal build succeeds: projects WITH erroneous sources (unused tags, bad directives, failing
+    # commands, missing includes ...), same tree, both modes, and verify after a successful --needed build passes
+    errp = [p_ for p_ in gen_batch(rng, 200 if tier_ == "quick" else 6000, large=False, modes=(0,), allow_errors=True)]
+    e0, e1 = [], []
+    for p_ in errp:
+        for md, lst in ((0, e0), (1, e1)):
+            q = p_.copy(); q.mode = md; q.id = p_.id + (".b" if md == 0 else ".n"); lst.append(q)
+    ei, em = both(e0 + e1)
+    nerr = 0
+    for k_, p_ in enumerate(errp):
+        ib, in_ = ei[k_], ei[len(errp) + k_]; mn = em[len(errp) + k_]
+        if ib["verdict"] != "ok": nerr += 1
+        if ib["verdict"] != in_["verdict"]:
+            if len(violations) < 5:
+                violations.append(proj_violation("C09", "a normal build ends with `%s` but --needed with `%s` on the same tree" % (ib["verdict"], in_["verdict"]), e1[k_], in_, mn))
+        elif ib["verdict"] == "ok" and ib["F"] != in_["F"] and len(violations) < 5:
+            violations.append(proj_violation("C09", "--needed and a normal build of the same tree give different files", e1[k_], in_, mn))
     ses = cli_session({"a.txt.txtpp": "x\n-TXTPP#temp t.tmp\n-body\ny\n"},
                       [["-q", "-N", "a.txt"], ["-q", "-N", "a.txt"], ["-q", "a.txt"], ["!write", "a.txt", b"stale"], ["-q", "--needed", "a.txt"], ["-q", "-N", "verify", "a.txt"]])
     m1, m2, m3 = ses[0][2], ses[1][2], ses[2][2]
@@ -1440,7 +1635,8 @@ def check_C09(tier_, sd, consts_ok, consts_detail):
     if not all(cli_ok) and len(violations) < 5:
         violations.append({"found": True, "replay": {"property": "C09", "what": "the binary's -N/--needed flag does not behave as documented", "steps_ok": cli_ok,
                            "steps": "-N; -N (mtimes must stay); build (output mtime changes, temp stays); tamper; --needed (updated)"}})
-    cov = {"evaluations": len(steps) + ngen + len(ses), "distinct_nontrivial": len(nontriv), "cli_flag_steps_ok": cli_ok,
+    cov = {"evaluations": len(steps) + ngen + len(ses) + 2 * len(errp), "distinct_nontrivial": len(nontriv), "cli_flag_steps_ok": cli_ok,
+           "build_vs_needed_pairs_with_errors": {"pairs": len(errp), "failing": nerr},
            "rule": "generated projects x pre-states of the generated paths (absent / exact / prefix / extended / junk incl. non-UTF-8) x modes {needed, build, verify}; all mtimes pre-set to a sentinel; "
                    "checked on the implementation: needed = build byte for byte, correct outputs (needed) and correct temp files (all modes) keep inode and mtime, stale ones are updated; plus source edits; "
                    "distinct_nontrivial = distinct (project, pre-state shape) under --needed",
@@ -1697,6 +1893,7 @@ def check_C17(tier_, sd, consts_ok, consts_detail):
                     status_fail = (variant == 2)
                     body = ["-TXTPP#run pwd -P", '=TXTPP#run printf %s "$TXTPP_FILE"', "",
                             "+TXTPP#run printf '%s|' \"a", "+b   c", "+d\"", "",
+                            "-TXTPP#run printf '[%s]' \"left", "-", "-right\"", "",       # an EMPTY argument line still contributes its separating space
                             "~TXTPP#run printf 'multi'", "~  ;  printf 'line'", ""]
                     if status_fail: body += [r.choice(["-TXTPP#run exit %d" % (1 + r.below(3)), "-TXTPP#run echo partial; kill -9 $$", "-TXTPP#run kill -TERM $$; echo late"])]
                     p.files = [(src, ("\n".join(body) + "\n").encode())]
@@ -1732,7 +1929,7 @@ def check_C17(tier_, sd, consts_ok, consts_detail):
             if len(violations) < 5: violations.append(proj_violation("C17", "the command did not run in the directory of the source: pwd = %r, expected %r" % (lines_[0], want_pwd), p, a, b))
             continue
         tf = lines_[1]
-        if "a b   c d|" not in text or "multi ; printf 'line'" in text or "multiline" not in text:
+        if "a b   c d|" not in text or "multi ; printf 'line'" in text or "multiline" not in text or "[left  right]" not in text:
             if len(violations) < 5: violations.append(proj_violation("C17", "argument lines were not joined by single spaces into one shell argument", p, a, b)); continue
         # TXTPP_FILE designates the source: absolute, or relative to the command's working directory
         if tf == "":
@@ -1975,6 +2172,27 @@ def check_C04(tier_, sd, consts_ok, consts_detail):
         if a["verdict"] != b["verdict"] and len(violations) < 5:
             violations.append(proj_violation("C04", "verdict differs from the model (fault %s at %s)" % (fault, names[pos]), p, a, b, found=(req and a["verdict"] == "ok")))
         nontriv.add((fault, pos, tuple(map(tuple, edges))))
+    # sources whose LAST item produces no text (a closing empty directive, a temp block, only empty directives): the end-of-file
+    # work - the verify "nothing left over" test, the --needed compare-and-write - must still happen
+    tails = []
+    for k_, body in enumerate([b"head\n-TXTPP#run printf 'x\\n'\n=TXTPP#\n", b"-TXTPP#\n=TXTPP# only empty directives\n", b"head\n-TXTPP#temp t.tmp\n-body\n",
+                               b"/* TXTPP#run printf 'a\\nb\\n'\n-TXTPP# */\n", b""]):
+        fresh = {0: b"head\nx\n", 1: b"", 2: b"head\n", 3: b"a\nb\n", 4: b""}[k_]
+        for what, md, planted in (("verify-appended", 3, fresh + b"EXTRA"), ("verify-exact", 3, fresh), ("needed-missing", 1, None), ("needed-stale", 1, b"stale\n"), ("needed-longer", 1, fresh + b"tail\n")):
+            p = Project("tail%d%s" % (k_, what)); p.files = [("/s.txt.txtpp", body)] + ([("/s.txt", planted)] if planted is not None else [])
+            p.inputs = ["s.txt.txtpp"]; p.mode = md; p.sched = [0] * 4; p.what = what; p.fresh = fresh
+            tails.append(p)
+    complete_oracles(tails)
+    ti, tm = both(tails)
+    for p, a, b in zip(tails, ti, tm):
+        if p.what == "verify-appended" and a["verdict"] == "ok":
+            violations.append(proj_violation("C04", "FALSE SUCCESS: verify accepted an output with extra bytes (source ends with an item that produces no text)", p, a, b))
+        elif p.what == "verify-exact" and a["verdict"] != "ok" and b["verdict"] == "ok":
+            violations.append(proj_violation("C04", "verify rejected an exact output (source ends with an item that produces no text)", p, a, b))
+        elif p.what.startswith("needed") and a["verdict"] == "ok" and a["F"].get("/s.txt") != p.fresh:
+            violations.append(proj_violation("C04", "FALSE SUCCESS: --needed reported success but the output is missing or stale (%s)" % p.what, p, a, b, extra={"expected": short(p.fresh)}))
+        elif (a["verdict"], a["F"]) != (b["verdict"], b["F"]) and len(violations) < 6:
+            violations.append(proj_violation("C04", "end-of-file handling differs from the model (%s)" % p.what, p, a, b, found=False))
     # OS-level faults on the real binary: write/flush failure (disk full), output size limit
     cli = []
     import tempfile
@@ -2022,7 +2240,7 @@ def check_C04(tier_, sd, consts_ok, consts_detail):
                 violations.append({"found": True, "replay": {"property": "C04", "what": "abnormal end (%s) under fault %s" % (rc, case)}})
     finally:
         subprocess.run(["chmod", "-R", "u+w", d]); shutil.rmtree(d, ignore_errors=True)
-    cov = {"evaluations": len(projs) + len(firsts) + len(cli), "distinct_nontrivial": len(nontriv),
+    cov = {"evaluations": len(projs) + len(firsts) + len(cli) + len(tails), "distinct_nontrivial": len(nontriv), "sources_ending_without_text": len(tails),
            "rule": "fault matrix: {prefix-less multi-line directive, failing command, missing include, include of a directory, output path occupied by a directory, temp target is a directory, temp target ending in .txtpp, "
                    "unused tag, tag while listening, invalid UTF-8 line, verify mismatch} x position {root, middle, leaf, unrelated file} x graph shape {chain, diamond, two components, independent} x random controlled schedule, "
                    "through the library; the binary under real OS faults (output -> /dev/full small and large, RLIMIT_FSIZE with SIGXFSZ ignored, read-only directory); "
